@@ -41,6 +41,14 @@ class UnionMonitor:
                     stream = io.BytesIO(buf)
                     stream.seek(field.offset or 0)  # members may be given an explicit offset through add_field()
                     want = field.type._read(stream)
+                    if field.bits:
+                        # a bit-field member is the first `bits` bits of the unit read at the union's start
+                        unit = int(getattr(want, "value", want))
+                        nbits = field.type.size * 8
+                        unit &= (1 << nbits) - 1
+                        want = unit & ((1 << field.bits) - 1) if cls.cs.endian == "<" else unit >> (nbits - field.bits)
+                        if getattr(getattr(field.type, "type", field.type), "signed", False) and want >> (field.bits - 1):
+                            want -= 1 << field.bits
                     have = getattr(u, field._name)
                     a, b = simple(want), simple(have)
                 except Exception:  # noqa: BLE001
@@ -826,6 +834,80 @@ def assign_back(ctx):
                 ctx.event("assign_back_checked")
 
 
+def bitfield_members(ctx, rng, n):
+    """Unions with bit-field members next to a plain member of the same storage type: every bit-field member is the first
+    `bits` bits of the unit at the union's start (from the low end in little endian, from the high end in big endian);
+    histories of assignments to any member, directly and through `parent.u[i]`: after each step every member equals
+    the view of the shadow unit, the buffer holds it, the rest of the unit is kept (own bit-slicing reference)."""
+    for it in range(n):
+        st, size = rng.choice([("uint8", 1), ("uint16", 2), ("uint32", 4), ("uint64", 8)])
+        total = size * 8
+        endian = rng.choice("<>")
+        widths = [rng.randint(1, total - 1) for _ in range(rng.randint(1, 3))]
+        members = "".join(f" {st} f{j} : {w};" for j, w in enumerate(widths))
+        text = f"union U {{{members} {st} raw; }};\nstruct P {{ uint8 h; U u[2]; uint8 t; }};"
+        det = {"text": text, "endian": endian, "workload": "bitfield-members"}
+        ctx.cell("union-with-bit-field-members:" + endian)
+        try:
+            cs = lib.load(text, endian, False, rng.random() < 0.5)
+            bo = "little" if endian == "<" else "big"
+            units = [rng.getrandbits(total) | 1 << (total - 1) | 1, rng.getrandbits(total)]
+            p = cs.P(bytes([7]) + b"".join(u.to_bytes(size, bo) for u in units) + bytes([9]))
+            top = cs.U(units[0].to_bytes(size, bo))
+        except Exception as e:  # noqa: BLE001
+            ctx.violation("coherence", f"union-with-bit-field-members-raises:{type(e).__name__}", dict(det, error=lib.exc_sig(e)))
+            continue
+
+        def view(unit, w):
+            return unit & ((1 << w) - 1) if endian == "<" else unit >> (total - w)
+
+        def put(unit, w, v):
+            if endian == "<":
+                return (unit & ~((1 << w) - 1)) | v
+            return (unit & ((1 << (total - w)) - 1)) | (v << (total - w))
+
+        hist = []
+        targets = [("top", top, [units[0]], 0), ("parent.u[0]", p.u[0], units, 0), ("parent.u[1]", p.u[1], units, 1)]
+
+        def check(step):
+            for name, u, store, k in targets:
+                unit = store[k]
+                got = [int(getattr(u, f"f{j}")) for j in range(len(widths))] + [int(u.raw), bytes(u._buf)]
+                want = [view(unit, w) for w in widths] + [unit, unit.to_bytes(size, bo)]
+                if got != want:
+                    ctx.violation("coherence", "bit-field-member-of-a-union-not-coherent-with-the-union-bytes",
+                                  dict(det, where=name, step=step, history=hist, got=repr(got), want=repr(want)))
+                    return False
+            return True
+
+        ctx.evaluation(("bitfield-members", text, endian))
+        if not check("after-parse"):
+            continue
+        for step in range(rng.randint(3, 8)):
+            name, u, store, k = rng.choice(targets)
+            j = rng.randrange(len(widths) + 1)
+            try:
+                if j == len(widths):
+                    v = rng.getrandbits(total)
+                    u.raw = v
+                    store[k] = v
+                    hist.append((name, "raw", v))
+                else:
+                    v = rng.choice([0, 1, (1 << widths[j]) - 1, rng.getrandbits(widths[j])])
+                    setattr(u, f"f{j}", v)
+                    store[k] = put(store[k], widths[j], v)
+                    hist.append((name, f"f{j}", v))
+            except Exception as e:  # noqa: BLE001
+                ctx.violation("assign", f"assignment-raises:{type(e).__name__}", dict(det, history=hist, error=lib.exc_sig(e)))
+                break
+            ctx.evaluation(("bitfield-members", text, endian, repr(hist)))
+            ctx.event("assignments")
+            if not check(f"after-assignment-{step}"):
+                break
+        else:
+            ctx.event("bitfield_member_histories")
+
+
 def run(ctx):
     mon = UnionMonitor(ctx)
     mon.install()
@@ -838,6 +920,8 @@ def run(ctx):
             defaults_and_falsy_values(ctx)
         if ctx.shard % 4 == 1:
             offset_unions(ctx, 12 if not ctx.thorough else 150)
+        if ctx.shard % 4 == 2:
+            bitfield_members(ctx, ctx.rng("bitfield-members"), 12 if not ctx.thorough else 150)
         for i in range(N_CASES[ctx.tier]):
             if ctx.out_of_time():
                 break
